@@ -12,10 +12,10 @@ def results(paths):
             m = re.match(r"\[(\w+)/mutant(\d+)\] RESULT (\w+) \S+ exit=(\d+) violations=(\d+) :: (.*)", l)
             if m: res[(m.group(1), int(m.group(2)), m.group(3))] = (int(m.group(4)), int(m.group(5)), m.group(6).strip())
     return res
-lab = results(sum([sorted(glob.glob(SRC + "/queue%s?.txt.log" % q)) for q in ["", "B", "C", "D", "E", "F", "G"]], []) + sorted(glob.glob("/tmp/q/w3b_?.log")))
-lab_first = results(sorted(glob.glob("/tmp/q/w3_?.log")))   # wave 3: the run BEFORE the checks were strengthened
+lab = results(sum([sorted(glob.glob(SRC + "/queue%s?.txt.log" % q)) for q in ["", "B", "C", "D", "E", "F", "G"]], []) + sorted(glob.glob("/tmp/q/w3b_?.log")) + sorted(glob.glob("/tmp/q/w4b_?.log")) + sorted(glob.glob("/tmp/q/w5b_?.log")))
+lab_first = results(sorted(glob.glob("/tmp/q/w3_?.log")) + sorted(glob.glob("/tmp/q/w4_?.log")) + sorted(glob.glob("/tmp/q/w5_?.log")))   # wave 3: the run BEFORE the checks were strengthened
 conf = {}
-for p in glob.glob(SRC + "/confirm*_*.log") + glob.glob(SRC + "/confirm_*.log") + glob.glob("/tmp/q/w3_confirm.log"):
+for p in glob.glob(SRC + "/confirm*_*.log") + glob.glob(SRC + "/confirm_*.log") + glob.glob("/tmp/q/w?_confirm.log"):
     for l in open(p):
         m = re.match(r"RESULT (\w+) (\S+) suite=\[([^\]]*)\] demo_with=(\d+) demo_without=(\d+)", l)
         if m: conf[m.group(2)] = (m.group(3), int(m.group(4)), int(m.group(5)))
